@@ -89,6 +89,31 @@ PROPS["C04"] = dict(
     level_note="Trusted: oracle/ref.hpp::host_ok, libidn2 for the A-label form, sanitizers, shim.",
 )
 
+PROPS["C05"] = dict(
+    level="exploration",
+    default_binary="c05",
+    binaries={"c05": dict(src=["props/c05.cpp"], variants=["dflt"])},
+    stages=[
+        stage("corpus", workers=1),
+        stage("shapes"),
+        stage("bounded"),
+        stage("random", kind="rc", quick=5000, thorough=100000, max_size=100),
+    ],
+    rule="Bracketed domains: every IPv6 shape (0-8 groups before x 0-8 after '::' x 0-2 '::' x optional dotted-quad tail x group widths "
+         "{1,4,5,0} x tags {IPv6:, none, ipv6:, foo:, ...}); every octet value 0-300 in each of the 4 positions, bare and as IPv6 tail; digit-count and "
+         "dot-placement shapes; 1-3 bytes after ']' and a byte before '['; all strings of length <= 6 (quick) / <= 7 (thorough) over "
+         "{1 a : . ] [ g} inside [IPv6:...], inside [...] and after [1.2.3.4; grammar-based random literals; the repository's literal lines. Each "
+         "judged as x@D by eav_is_email (4 modes, TLD on) and by is_<mode>_email directly (TLD off). Non-trivial = domain starts with '[' and has >= 7 "
+         "bytes; distinct by byte-string hash.",
+    assumptions=["two-sided bound: lower = RFC 5321 4.1.3 with non-zero first octet (must accept), upper = exactly '[' addr ']' with dotted quad <= 255 or "
+                 "[IPv6:]RFC 4291 text (must reject outside); nothing is demanded between the bounds (e.g. 0.x.x.x, 7 groups + '::')"],
+    min_evaluations=dict(quick=1_000_000, thorough=10_000_000),
+    technique="two-sided reference bound (must-accept / must-reject recognisers) over exhaustively enumerated literal shapes and short strings, plus rapidcheck generation",
+    level_text="Exploration against explicit lower/upper reference recognisers; the shape parameters named in the quantifier and all short bracket "
+               "contents are enumerated completely, the rest sampled.",
+    level_note="Trusted: oracle/ref.hpp::literal (own recursive parser for RFC 5321 4.1.3 and RFC 4291 2.2 text), sanitizers, shim.",
+)
+
 
 def stages_for(pid, tier):
     out = []
